@@ -24,6 +24,10 @@ enum QOp {
   Del(String),
 }
 
+/// ids that are unusual but that nothing documents as invalid: whichever way the service
+/// answers them (queued or rejected) is accepted; what is judged is the queue afterwards
+const ODD_IDS: &[&str] = &["a ", " a", "a\tb", "x y", "é", "日本", "a/b", "..", "A", "-1", "0", "null", "a\u{00a0}"];
+
 fn valid_doc(rng: &mut Rng, ids: usize, version: &mut u64) -> (Value, QOp) {
   let id = format!("d{}", rng.usize(ids));
   *version += 1;
@@ -109,8 +113,19 @@ fn main() {
           let (d, op) = valid_doc(rng, ids, &mut version);
           docs.push((d.to_string(), Some(op)));
         }
+        let mut either = false;
+        if rng.chance(0.12) {
+          // one document with an unusual id: accepted or rejected, both fine
+          let k = rng.usize(docs.len());
+          let odd = ODD_IDS[rng.usize(ODD_IDS.len())];
+          let mut v: Value = serde_json::from_str(&docs[k].0).unwrap();
+          v["_id"] = json!(odd);
+          let body = v["body"].as_str().unwrap_or("").to_string();
+          docs[k] = (v.to_string(), Some(QOp::Add(odd.to_string(), body)));
+          either = true;
+        }
         let mut invalid: Option<&'static str> = None;
-        if rng.chance(0.35) {
+        if !either && rng.chance(0.35) {
           let (bad, label) = invalid_doc(rng);
           let label = if bulk && label == "malformed-json" { "malformed-json" } else { label };
           let pos = rng.usize(docs.len() + 1);
@@ -137,10 +152,20 @@ fn main() {
             if queued != Some(n_docs as u64) {
               l.fail("ack-count-wrong", format!("{path} acknowledged {queued:?} of {n_docs} documents"), case(&log, json!(null)));
             }
+            if either {
+              l.count("odd_id_requests_accepted", 1);
+            }
             for d in docs.iter() {
               if let Some(op) = &d.1 {
                 queue.push(op.clone());
               }
+            }
+          }
+          (Some(s), None) if either && (400..500).contains(&s) => {
+            // rejected as a whole: nothing of it may be queued (model unchanged)
+            l.count("odd_id_requests_rejected", 1);
+            if !queue.is_empty() {
+              nontrivial = true;
             }
           }
           (Some(s), None) => {
